@@ -27,6 +27,7 @@ type FnResult struct {
 	Vacuity   []string
 	Dropped   []string // auto invariants dropped by the Houdini loop
 	Params    map[string]EVal
+	Probes    []*Obligation
 }
 
 func (tr *Tr) heapClosure(st *State, ls []leaf, v Val) {
@@ -75,7 +76,7 @@ func translate(P *Program, fn *ssa.Function, ct *Contract, disabled map[string]b
 	tr.entry = entry
 	ea := tr.get(entry, "alloc")
 	tr.assume(f.And(f.ULe(f.BVu(64, 0x2000000), ea), f.ULt(ea, f.BVu(64, 1<<61))), "allocation counter range at entry")
-	tr.assume(f.ILe(f.IntC(0), tr.get(entry, "ev.len")), "event log length is non-negative")
+	tr.assume(f.And(f.ILe(f.IntC(0), tr.get(entry, "ev.len")), f.ILe(tr.get(entry, "ev.len"), f.IntC(1<<59))), "event log length is non-negative (and below 2^59)")
 	tr.declLocks()
 
 	// parameters
@@ -142,6 +143,57 @@ func translate(P *Program, fn *ssa.Function, ct *Contract, disabled map[string]b
 		}
 	}
 	nReq := len(tr.assumes)
+	// case splits declared by the contract: each obligation may be discharged case by case
+	if ct != nil && len(ct.Splits) > 0 {
+		env := mkEnv(entry, nil)
+		bindFV(env)
+		cases := [][]*Term{{}}
+		var cover []*Term
+		for _, sp := range ct.Splits {
+			ev, err := env.Eval(sp.Expr.Expr)
+			if err != nil {
+				tr.specError(sp.Expr, err)
+				continue
+			}
+			var eqs []*Term
+			for _, vc := range sp.Values {
+				vv, err := env.Eval(vc.Expr)
+				if err != nil {
+					tr.specError(vc, err)
+					continue
+				}
+				a, b := env.unify(ev, vv)
+				a, b = env.defaultType(a), env.defaultType(b)
+				if len(a.V) != 1 || len(b.V) != 1 || a.V[0].S != b.V[0].S {
+					tr.specError(vc, fmt.Errorf("split value has a different type"))
+					continue
+				}
+				eqs = append(eqs, f.Eq(a.V[0], b.V[0]))
+			}
+			if len(eqs) == 0 {
+				continue
+			}
+			cover = append(cover, f.Or(eqs...))
+			var next [][]*Term
+			for _, c := range cases {
+				for _, e := range eqs {
+					if len(next) >= 64 {
+						break
+					}
+					nc := append(append([]*Term{}, c...), e)
+					next = append(next, nc)
+				}
+			}
+			cases = next
+		}
+		if len(cover) > 0 {
+			top := &Frame{fn: fn, prefix: "", contract: ct, reach: map[*ssa.BasicBlock]*Term{}, callOrd: map[string]int{}}
+			tr.frames = append(tr.frames, top)
+			tr.obligeAt("split-cover", "", fn.Pos(), f.True(), f.And(cover...), "the declared case split covers every state allowed by the precondition")
+			tr.frames = tr.frames[:len(tr.frames)-1]
+			tr.splitCases = cases
+		}
+	}
 
 	// run the body
 	tr.framesInit(params)
@@ -180,7 +232,9 @@ func translate(P *Program, fn *ssa.Function, ct *Contract, disabled map[string]b
 		}
 		tr.frames = tr.frames[:len(tr.frames)-1]
 	}
-	_ = nReq
+	// vacuity probes (expected sat): the precondition is satisfiable; the exit is reachable under all assumptions
+	res.Probes = append(res.Probes, &Obligation{Name: "vacuity#requires", Kind: "vacuity", Fn: tr.top.String(), Reach: f.True(), Cond: f.False(), NAssume: nReq, Desc: "precondition and type invariants are satisfiable"})
+	res.Probes = append(res.Probes, &Obligation{Name: "vacuity#exit", Kind: "vacuity", Fn: tr.top.String(), Reach: ret, Cond: f.False(), NAssume: len(tr.assumes), Desc: "the function exit is reachable under every assumed contract and invariant"})
 	res.Obls = tr.obls
 	for n := range tr.notes {
 		res.Notes = append(res.Notes, n)
